@@ -328,6 +328,37 @@ func genConfig(r *gen.Rand) *config {
 			}
 		}
 	}
+	if r.Chance(1, 5) {
+		// A parameter inside a segment, after literal text ("/fab:ext", optionally followed by more
+		// literal text): here the EMPTY value is unambiguous - the result is still a proper path,
+		// no empty segment appears. The property quantifies over empty values, and an empty
+		// request-level value must win over a non-empty client-level one like any other.
+		name := gen.Pick(r, []string{"ext", "sfx"})
+		cf.Tmpl = append(cf.Tmpl, tok{Lit: "/f" + r.Ident(1, 3)}, tok{Param: name})
+		if r.Chance(1, 3) {
+			cf.Tmpl = append(cf.Tmpl, tok{Lit: "." + r.Ident(1, 3)})
+		}
+		nonEmpty := func() single {
+			s := genSingles(r, []string{name}, vPath, false)[0]
+			if r.Bool() {
+				s.V = "." + s.V
+			}
+			return s
+		}
+		empty := single{K: name, V: "", Cl: clEmpty, Mode: r.Intn(2)}
+		switch r.PickW(4, 1, 2, 1) {
+		case 0:
+			cf.Client.PathP = append(cf.Client.PathP, nonEmpty())
+			cf.Req.PathP = append(cf.Req.PathP, empty)
+		case 1:
+			cf.Req.PathP = append(cf.Req.PathP, empty)
+		case 2:
+			cf.Client.PathP = append(cf.Client.PathP, nonEmpty())
+			cf.Req.PathP = append(cf.Req.PathP, nonEmpty())
+		default:
+			cf.Client.PathP = append(cf.Client.PathP, nonEmpty())
+		}
+	}
 	// body
 	cf.Body = r.PickW(4, 2, 2, 1, 1, 3, 3)
 	cf.Method = "GET"
